@@ -2,10 +2,10 @@ package props
 
 import (
 	"bytes"
-	"os"
 	"encoding/json"
 	"fmt"
 	"net/url"
+	"os"
 	"strconv"
 	"strings"
 	"testing"
